@@ -36,8 +36,10 @@ def P(name, **kw):
     return p
 
 
-def H(classes, tail=(), exc=False):
+def H(classes, tail=(), exc=False, exc_root=None):
     classes[0]["exc_base"] = exc
+    if exc and exc_root:
+        classes[0]["exc_root"] = exc_root
     return {"classes": classes, "validators_enabled": True, "tail": list(tail)}
 
 
@@ -152,6 +154,16 @@ CORP = {
         H([dict(C("C0", frozen=True, slots=False, fields=[F("x")]), user_set=True, user_del=True)]),
         {"pos": ["t1"], "kw": []}, [{"set": {"name": "x", "v": "s1"}}, {"del": {"name": "x"}}, "copy"], "valid"),
 }
+# exception bases outside the Exception subtree (and a slotted / attr.s(auto_exc) / plain-subclass spread over them)
+for _i, _r in enumerate(["BaseException", "KeyboardInterrupt", "SystemExit", "GeneratorExit", "CancelledError", "Quit"]):
+    _c = [C("C0", api="frozen", frozen=None, fields=[F("x")]), C("C0", frozen=True, slots=True, auto_exc=True, fields=[F("x")]),
+          C("C0", api="make_class", frozen=True, slots=False, fields=[F("x")])][_i % 3]
+    CORP[f"frozen-exception-bookkeeping-{_r}"] = (
+        H([_c], tail=[{"name": "T0", "plain_slots": False}] if _i % 2 else (), exc=True, exc_root=_r),
+        {"pos": ["t1"], "kw": []}, ["raise_", {"set": {"name": "__traceback__", "v": "None"}}, "raiseFrom", "chain", {"addNote": {"v": "n1"}},
+                                     {"set": {"name": "__cause__", "v": "E1"}}, {"set": {"name": "__context__", "v": "E2"}},
+                                     {"del": {"name": "__notes__"}}, {"set": {"name": "x", "v": "s1"}}, {"withTb": {"present": True}},
+                                     {"set": {"name": "__suppress_context__", "v": "True"}}], "valid")
 
 
 def evaluate(h, ctor, ops, stream):
